@@ -324,7 +324,7 @@ def check_inner(ctx, r, rid="R0"):
                ("reference", Bloc(FkNotSet("inner"), Var("var_x"))),
                ("range", Rng("var_count", "I32", [(Exact(0), Lit("zero")), (FALLBACK, Bloc(Var("var_count"), Var("var_x")))]))]
     argsets = [("no-args", L()), ("x", L(T(S("var_x"), Lit("X")))), ("x=reference", L(T(S("var_x"), FkNotSet("arg"))))]
-    EXT = {"fr-CA": "fr", "de": "it", "it": "de", "pt": "pt"}          # a chain, a cycle, a self reference
+    EXT = {"fr-CA": "fr", "de": "it", "it": "de", "pt": "pt", "fr-QC": "fr-CA"}          # a chain (two hops from fr-QC), a cycle, a self reference
     NULL, ABSENT = DEFAULT, None
     # (label, locale of the reference, {locale: value | NULL | ABSENT})
     cases = []
@@ -337,6 +337,10 @@ def check_inner(ctx, r, rid="R0"):
         ("null-inherits-defined", "fr-CA", {"fr-CA": NULL, "fr": T_FR, "en": T_EN}),
         ("null-inherits-null", "fr-CA", {"fr-CA": NULL, "fr": NULL, "en": T_EN}),
         ("null-inherits-absent", "fr-CA", {"fr-CA": NULL, "en": T_EN}),
+        ("null-two-hops-defined", "fr-QC", {"fr-QC": NULL, "fr-CA": NULL, "fr": T_FR, "en": T_EN}),
+        ("null-two-hops-first-defines", "fr-QC", {"fr-QC": NULL, "fr-CA": T_IT, "fr": T_FR, "en": T_EN}),
+        ("null-two-hops-all-null", "fr-QC", {"fr-QC": NULL, "fr-CA": NULL, "fr": NULL, "en": T_EN}),
+        ("null-two-hops-middle-absent", "fr-QC", {"fr-QC": NULL, "fr": T_FR, "en": T_EN}),
         ("null-cycle-all-null", "de", {"de": NULL, "it": NULL, "en": T_EN}),
         ("null-cycle-other-defines", "de", {"de": NULL, "it": T_IT, "en": T_EN}),
         ("null-cycle-other-absent", "it", {"it": NULL, "en": T_EN}),
